@@ -59,3 +59,14 @@ Theorem C09_new_record : forall fid st0 seed w,
   r_ver r = 1 /\ r_state r = RSInitiated /\ r_status r = st0 /\ r_fid r = fid /\ r_run r = w_nrun w /\ r_obj r = OVal seed [] /\ r_created r = w_now w.
 Proof. exact new_run_record_shape. Qed.
 Print Assumptions C09_new_record.
+
+(* SUCCESS ONLY IF PERSISTED, for EVERY state (world, fault plan, lease): a Trigger that returned nil has left its new run — the
+   given foreign ID, Initiated, version 1, the given initial value — as the stored record of a run ID and as the last committed
+   write; a Store that fails before taking effect can therefore never be reported as success (proofs/StoreOk.v) *)
+From WF Require Import proofs.StoreOk.
+Theorem C09_success_means_persisted : forall c fid start seed s s',
+  api_trigger c fid start seed s = (Ok tt, s') ->
+  exists r, r_fid r = fid /\ r_state r = RSInitiated /\ r_ver r = 1 /\ r_obj r = OVal seed [] /\
+            lookup_run (o_w s') (r_run r) = Some r /\ last (w_hist (o_w s')) r = r /\ w_hist (o_w s') <> [].
+Proof. exact trigger_success_persisted. Qed.
+Print Assumptions C09_success_means_persisted.
